@@ -88,11 +88,11 @@ theorem SubsOK.tail {s : Ind F} {rest : List (Ind F)} (h : SubsOK N (s :: rest))
 
 /-! ### `_find_calc_index` and the skip test look only at the own name -/
 
-theorem hasKey_strip {n : String} (hn : n ∉ N) (c : Candle F) : hasKey n (strip N c) = hasKey n c := by
+theorem Writes.hasKey_strip {n : String} (hn : n ∉ N) (c : Candle F) : hasKey n (strip N c) = hasKey n c := by
   unfold hasKey dhas
-  rw [strip_inds, strip_subs, dlookup_eraseAll_of_not_mem hn, dlookup_eraseAll_of_not_mem hn]
+  rw [strip_inds, strip_subs, Writes.dlookup_eraseAll_of_not_mem hn, Writes.dlookup_eraseAll_of_not_mem hn]
 
-theorem scanBack_strip {n : String} (hn : n ∉ N) (cs : List (Candle F)) (j : Nat) :
+theorem Writes.scanBack_strip {n : String} (hn : n ∉ N) (cs : List (Candle F)) (j : Nat) :
     scanBack n (cs.map (strip N)) j = scanBack n cs j := by
   induction j with
   | zero => rfl
@@ -101,22 +101,22 @@ theorem scanBack_strip {n : String} (hn : n ∉ N) (cs : List (Candle F)) (j : N
     rw [List.getElem?_map]
     cases cs[j + 1]? with
     | none => exact ih
-    | some c => simp only [Option.map_some, hasKey_strip hn, ih]
+    | some c => simp only [Option.map_some, Writes.hasKey_strip hn, ih]
 
-theorem findCalcIndex_strip {n : String} (hn : n ∉ N) (cs : List (Candle F)) :
+theorem Writes.findCalcIndex_strip {n : String} (hn : n ∉ N) (cs : List (Candle F)) :
     findCalcIndex n (cs.map (strip N)) = findCalcIndex n cs := by
   cases cs with
   | nil => rfl
   | cons c r =>
     show findCalcIndex n (strip N c :: r.map (strip N)) = _
     unfold findCalcIndex
-    have := scanBack_strip hn (c :: r) ((c :: r).length - 1)
+    have := Writes.scanBack_strip hn (c :: r) ((c :: r).length - 1)
     simp only [List.map_cons, List.length_cons, List.length_map] at this ⊢
-    rw [hasKey_strip hn, this]
+    rw [Writes.hasKey_strip hn, this]
 
-theorem dlookup_strip_inds {n : String} (hn : n ∉ N) (c : Candle F) :
+theorem Writes.dlookup_strip_inds {n : String} (hn : n ∉ N) (c : Candle F) :
     dlookup n (strip N c).inds = dlookup n c.inds := by
-  rw [strip_inds, dlookup_eraseAll_of_not_mem hn]
+  rw [strip_inds, Writes.dlookup_eraseAll_of_not_mem hn]
 
 /-! ### the engine -/
 
@@ -139,7 +139,7 @@ structure EngineStrip (N : List String) (f : Nat) : Prop where
 
 omit [PyF F] in
 /-- a left fold of steps that commute with `strip` -/
-theorem foldlM_strip {α : Type} (step : List (Candle F) → α → PyM (List (Candle F)))
+theorem Writes.foldlM_strip {α : Type} (step : List (Candle F) → α → PyM (List (Candle F)))
     (hstep : ∀ cs a, step (cs.map (strip N)) a = List.map (strip N) <$> step cs a) :
     ∀ (l : List α) (cs : List (Candle F)),
       l.foldlM step (cs.map (strip N)) = List.map (strip N) <$> l.foldlM step cs := by
@@ -154,22 +154,22 @@ theorem foldlM_strip {α : Type} (step : List (Candle F) → α → PyM (List (C
     | ok cs1 => exact ih cs1
 
 /-- one `_calculate_reading` + `_set_reading` (inline in `calcLoop` / `calculateIndex`) -/
-def readSet (f : Nat) (ind : Ind F) (cs : List (Candle F)) (i : Int) : PyM (List (Candle F)) := do
+def Writes.readSet (f : Nat) (ind : Ind F) (cs : List (Candle F)) (i : Int) : PyM (List (Candle F)) := do
   let (v, cs) ← Hex.calcReading f ind cs i
   setReading ind.isSub ind.name cs i (v.roundBy ind.round)
 
-theorem readSet_strip {f : Nat} (ih : EngineStrip (F := F) N f) (ind : Ind F) (cs : List (Candle F)) (i : Int)
+theorem Writes.readSet_strip {f : Nat} (ih : EngineStrip (F := F) N f) (ind : Ind F) (cs : List (Candle F)) (i : Int)
     (hok : TreeOK N ind) :
-    readSet f ind (cs.map (strip N)) i = List.map (strip N) <$> readSet f ind cs i := by
-  unfold readSet
+    Writes.readSet f ind (cs.map (strip N)) i = List.map (strip N) <$> Writes.readSet f ind cs i := by
+  unfold Writes.readSet
   rw [ih.calcReading ind cs i hok]
   cases Hex.calcReading f ind cs i with
   | error e => rfl
-  | ok p => exact setReading_strip hok.self_name ind.isSub p.2 i _
+  | ok p => exact Writes.setReading_strip hok.self_name ind.isSub p.2 i _
 
 omit [PyF F] in
 /-- composing two commuting squares along `>>=` -/
-theorem comm_bind {α α' β β' : Type} {m : PyM α} {m' : PyM α'} {g : α → α'} {h : β → β'}
+theorem Writes.comm_bind {α α' β β' : Type} {m : PyM α} {m' : PyM α'} {g : α → α'} {h : β → β'}
     {k : α → PyM β} {k' : α' → PyM β'} (hm : m' = g <$> m) (hk : ∀ a, k' (g a) = h <$> k a) :
     m' >>= k' = h <$> (m >>= k) := by
   subst hm
@@ -193,9 +193,9 @@ theorem engineStrip (N : List String) : ∀ f : Nat, EngineStrip (F := F) N f :=
     · -- calculate
       intro ind cs hok
       rw [Hex.calculate, Hex.calculate]
-      refine comm_bind (ih.calcSubs _ _ _ _ hok.subs) (fun cs1 => ?_)
-      rw [findCalcIndex_strip hok.self_name, List.length_map]
-      exact comm_bind (ih.calcLoop _ _ _ _ hok) (fun cs2 => ih.calcSubs _ _ _ _ hok.subs)
+      refine Writes.comm_bind (ih.calcSubs _ _ _ _ hok.subs) (fun cs1 => ?_)
+      rw [Writes.findCalcIndex_strip hok.self_name, List.length_map]
+      exact Writes.comm_bind (ih.calcLoop _ _ _ _ hok) (fun cs2 => ih.calcSubs _ _ _ _ hok.subs)
     · -- calcLoop
       intro ind cs k n hok
       cases n with
@@ -203,22 +203,22 @@ theorem engineStrip (N : List String) : ∀ f : Nat, EngineStrip (F := F) N f :=
         rw [Hex.calcLoop, Hex.calcLoop] <;> first | rfl | simp
       | succ n =>
         rw [Hex.calcLoop, Hex.calcLoop]
-        refine comm_bind (pyIndex_map (strip N) cs k) (fun c => ?_)
+        refine Writes.comm_bind (Writes.pyIndex_map (strip N) cs k) (fun c => ?_)
         dsimp only
-        rw [dlookup_strip_inds hok.self_name]
+        rw [Writes.dlookup_strip_inds hok.self_name]
         repeat' split
         all_goals first
-          | (refine comm_bind (g := List.map (strip N)) rfl (fun cs1 => ?_)
+          | (refine Writes.comm_bind (g := List.map (strip N)) rfl (fun cs1 => ?_)
              exact ih.calcLoop _ _ _ _ hok)
-          | (refine comm_bind (ih.calcReading ind cs k hok) (fun p => ?_)
+          | (refine Writes.comm_bind (ih.calcReading ind cs k hok) (fun p => ?_)
              dsimp only [stripRes]
-             refine comm_bind (setReading_strip hok.self_name ind.isSub p.2 k _) (fun cs2 => ?_)
+             refine Writes.comm_bind (Writes.setReading_strip hok.self_name ind.isSub p.2 k _) (fun cs2 => ?_)
              exact ih.calcLoop _ _ _ _ hok)
     · -- calculateIndex
       intro ind cs s e hok
       rw [Hex.calculateIndex, Hex.calculateIndex]
-      refine comm_bind (ih.calcSubs _ _ _ _ hok.subs) (fun cs1 => ?_)
-      refine comm_bind (foldlM_strip _ (fun cs a => readSet_strip ih ind cs a hok) _ cs1)
+      refine Writes.comm_bind (ih.calcSubs _ _ _ _ hok.subs) (fun cs1 => ?_)
+      refine Writes.comm_bind (Writes.foldlM_strip _ (fun cs a => Writes.readSet_strip ih ind cs a hok) _ cs1)
         (fun cs2 => ih.calcSubs _ _ _ _ hok.subs)
     · -- calcSubs
       intro subs prior range cs hok
@@ -228,9 +228,9 @@ theorem engineStrip (N : List String) : ∀ f : Nat, EngineStrip (F := F) N f :=
         simp only [Hex.calcSubs]
         repeat' split
         all_goals first
-          | exact comm_bind (ih.calculateIndex _ _ _ _ hok.head) (fun cs1 => ih.calcSubs _ _ _ _ hok.tail)
-          | exact comm_bind (ih.calculate _ _ hok.head) (fun cs1 => ih.calcSubs _ _ _ _ hok.tail)
-          | (refine comm_bind (g := List.map (strip N)) rfl (fun cs1 => ?_); exact ih.calcSubs _ _ _ _ hok.tail)
+          | exact Writes.comm_bind (ih.calculateIndex _ _ _ _ hok.head) (fun cs1 => ih.calcSubs _ _ _ _ hok.tail)
+          | exact Writes.comm_bind (ih.calculate _ _ hok.head) (fun cs1 => ih.calcSubs _ _ _ _ hok.tail)
+          | (refine Writes.comm_bind (g := List.map (strip N)) rfl (fun cs1 => ?_); exact ih.calcSubs _ _ _ _ hok.tail)
     · -- calcReading
       intro ind cs i hok
       rw [Hex.calcReading, Hex.calcReading]
@@ -248,8 +248,8 @@ theorem engineStrip (N : List String) : ∀ f : Nat, EngineStrip (F := F) N f :=
     · -- setManagedReading
       intro m cs i v hok
       rw [Hex.setManagedReading, Hex.setManagedReading]
-      refine comm_bind (ih.calcSubs _ _ _ _ hok.subs) (fun cs1 => ?_)
-      exact comm_bind (setReading_strip hok.self_name m.isSub cs1 i v) (fun cs2 => ih.calcSubs _ _ _ _ hok.subs)
+      refine Writes.comm_bind (ih.calcSubs _ _ _ _ hok.subs) (fun cs1 => ?_)
+      exact Writes.comm_bind (Writes.setReading_strip hok.self_name m.isSub cs1 i v) (fun cs2 => ih.calcSubs _ _ _ _ hok.subs)
 
 /-! ### the statements, individually -/
 
